@@ -508,7 +508,9 @@ def write_evidence(ctx: Ctx, level: str, audit: dict | None, explanation: str = 
         "wall_s": round(time.time() - ctx.t0, 2),
         "violations": len(ctx.violations),
     }
-    d = VERIF / "evidence"
-    d.mkdir(exist_ok=True)
+    # seed evaluations (tools/seed_eval.py) run the checks against a patched scratch copy of the package: their
+    # evidence must not overwrite the evidence of runs against /repo
+    d = Path(os.environ.get("PDQ_EVIDENCE_DIR", str(VERIF / "evidence")))
+    d.mkdir(parents=True, exist_ok=True)
     (d / f"{ctx.pid}.json").write_text(json.dumps(ev, indent=1, default=str))
     return ev
